@@ -162,9 +162,13 @@ def scenario(scripts, merge, writer):
         dev.enqueue('WRTE', remote, local, item)
     res = {'read': {}, 'end': {}, 'write': None, 'ids': ids}
 
+    writer_done = threading.Event()
+
     def reader(s):
       got = []
       end = None
+      if isinstance(writer, dict) and writer.get('reader_waits'):
+        writer_done.wait()       # the stream's reader turns up only after the write() call has come back
       for _ in range(12):
         try:
           d = streams[s].read(timeout_ms=60)
@@ -200,6 +204,7 @@ def scenario(scripts, merge, writer):
       except Exception as e:  # pylint: disable=broad-except
         wres[k] = 'error:%s:%s' % (type(e).__name__, str(e)[:80])
       wtime[k] = time.monotonic() - t0
+      writer_done.set()
 
     def open_then_read(s):
       try:
@@ -322,7 +327,11 @@ def check(cfg):
                     'after %.0f ms' % (writer, 1000 * v['write_timeout'], 1000 * wopts['ack_delay'], v['write'], 1000 * v['write_elapsed']), rep))
     elif writer:
       timed_out = isinstance(v['write'], str) and 'Timeout' in v['write']
-      if v['write'] != 'ok' and (strict or not timed_out):
+      # (when the device closes the stream before acknowledging, the write is entitled to fail with "stream closed")
+      # or, once nobody reads the connection for it any more, by its timeout
+      closed_ok = wopts.get('may_be_closed') and isinstance(v['write'], str) and v['write'].startswith(
+          ('error:AdbStreamClosedError', 'error:AdbTimeoutError'))
+      if v['write'] != 'ok' and not closed_ok and (strict or not timed_out):
         out.append(('write-failed:%s' % tag, 'stream write ended with %r (clock deviations: %d)'
                     % (v['write'], ex.result.get('timer_deviations', 0)), rep))
       sent = ''.join(m[3] for m in v['rx'] if m[0] == 'WRTE')
@@ -354,6 +363,11 @@ def configs(tier):
   # second stream opened while the first stream's reader is running; its data follows its OKAY at once
   lo = [['1', '2'], ['a', 'b', 'CLSE']]
   out.append((lo, merges([lo[0], []])[0], {'late_open': True}, 1 if tier == 'quick' else 2))
+  # the device answers a host write with data and then closes the stream: whichever thread handles the CLSE (the writer
+  # waiting for its OKAY, or the reader), the reader still obtains everything written before it
+  wc = [['a', 'b', 'CLSE']]
+  out.append((wc, merges(wc)[0], {'data': '01', 'may_be_closed': True}, 1 if tier == 'quick' else 2))
+  out.append((wc, merges(wc)[0], {'data': '01', 'may_be_closed': True, 'reader_waits': True}, 1 if tier == 'quick' else 2))
   # a device that needs 200 ms per acknowledgement, three chunks, 300 ms for the whole write
   out.append((none_s, [], {'data': '0123456789ab', 'ack_delay': 0.2, 'timeout_ms': 300}, 0 if tier == 'quick' else 1))
   if tier == 'thorough':
